@@ -17,24 +17,25 @@ From LZ4V Require Import Proofs.DecRefineBase Proofs.DecRefineSafe Proofs.DecRef
 Import ListNotations.
 Local Open Scope Z_scope.
 
-(* proved part of [C05_valid_decodes_full_statement] (Proofs/DecRefineApi.v): the safe loop
-   (LZ4_FAST_DEC_LOOP off) with every history placement of LZ4_decompress_safe_usingDict: none,
-   contiguous prefix of any size (64 KB-1 dispatch included) and external dictionary (matches
-   inside the dictionary and matches straddling dictionary and output included). *)
-Theorem C05_valid_decodes_partial :
-  forall (pl : placement) (B hist D : list Z) (srcm dictm : mem) (cap : Z) (m0 : mem),
+(* Every specification-valid block decodes to the specified content: LZ4_FAST_DEC_LOOP on or
+   off, every history placement of LZ4_decompress_safe_usingDict - none, contiguous prefix of any
+   size (the 64 KB-1 dispatch to withPrefix64k included), external dictionary of any size (matches
+   inside the dictionary and matches straddling dictionary and output included) - every capacity
+   >= |D|, every initial destination content. *)
+Theorem C05_valid_decodes :
+  forall (fastloop : bool) (pl : placement) (B hist D : list Z) (srcm dictm : mem) (cap : Z) (m0 : mem),
     strict_valid (lastn (Z.to_nat 65536) hist) B = Some D -> bytes B -> src_at srcm 0 B ->
     hist_placed pl hist dictm m0 -> Z.of_nat (length D) <= cap ->
-    decodes_to (decompress_usingDict false false srcm (Z.of_nat (length B)) 0 cap pl dictm (Z.of_nat (length hist)) m0) D.
-Proof. exact valid_decodes_safe_loop. Qed.
-Print Assumptions C05_valid_decodes_partial.
+    decodes_to (decompress_usingDict fastloop false srcm (Z.of_nat (length B)) 0 cap pl dictm (Z.of_nat (length hist)) m0) D.
+Proof. exact valid_decodes. Qed.
+Print Assumptions C05_valid_decodes.
 
-Theorem C05_valid_decodes_safe_partial :
-  forall (B D : list Z) (srcm : mem) (cap : Z) (m0 : mem),
+Theorem C05_valid_decodes_safe :
+  forall (fastloop : bool) (B D : list Z) (srcm : mem) (cap : Z) (m0 : mem),
     strict_valid [] B = Some D -> bytes B -> src_at srcm 0 B -> Z.of_nat (length D) <= cap ->
-    decodes_to (decompress_safe false srcm (Z.of_nat (length B)) cap m0) D.
-Proof. exact valid_decodes_safe_loop_nodict. Qed.
-Print Assumptions C05_valid_decodes_safe_partial.
+    decodes_to (decompress_safe fastloop srcm (Z.of_nat (length B)) cap m0) D.
+Proof. exact valid_decodes_nodict. Qed.
+Print Assumptions C05_valid_decodes_safe.
 
 (* finding F5: the block 10 41 00 00 50 62 63 64 65 66 (one literal, then a match with
    offset 0) is rejected by the specification but decoded "successfully" (return 10) by the
